@@ -105,6 +105,42 @@ theorem admitted_fee_produced (mi : Int) (v : Nat) (h : admitted (some mi) = tru
   have : ¬ mi < 0 := by omega
   simp [this, hfit]
 
+/-- **mulCeil_error_iff.** The general form of the three samples below: the fee step fails exactly for
+a missing multiplicator, a negative one, or a product whose ceiling does not fit 64 bits. -/
+theorem mulCeil_error_iff (m : Option Int) (v : Nat) :
+    mulCeil m v = .error ↔
+      m = none ∨ (∃ mi, m = some mi ∧ (mi < 0 ∨ 2 ^ 64 ≤ (mi.toNat * v + scale - 1) / scale)) := by
+  unfold mulCeil
+  cases m with
+  | none => simp
+  | some mi =>
+    simp only [reduceCtorEq, false_or, Option.some.injEq, exists_eq_left']
+    by_cases hneg : mi < 0
+    · simp [hneg]
+    · simp only [hneg, if_false, false_or]
+      by_cases hfit : (mi.toNat * v + scale - 1) / scale < 2 ^ 64
+      · simp only [hfit, if_true, reduceCtorEq, false_iff]; omega
+      · simp only [hfit, if_false, true_iff]; omega
+
+/-- **calcFees_spec.** The three fees are produced exactly when all three steps succeed, and are then
+the three ceilings (community and security fee on top of the relayer fee); otherwise the message is
+skipped with an error value — `calculateFeesForEstimate` has no other outcome. -/
+theorem calcFees_spec (rm cm sm : Option Int) (e : Nat) :
+    (∃ r c s, calcFees rm cm sm e = some (r, c, s) ∧ mulCeil rm e = .ok r ∧ mulCeil cm r = .ok c ∧ mulCeil sm r = .ok s) ∨
+    (calcFees rm cm sm e = none ∧
+      (mulCeil rm e = .error ∨ ∃ r, mulCeil rm e = .ok r ∧ (mulCeil cm r = .error ∨ mulCeil sm r = .error))) := by
+  unfold calcFees
+  cases h1 : mulCeil rm e with
+  | error => right; simp
+  | ok r =>
+    simp only
+    cases h2 : mulCeil cm r with
+    | error => right; simp [h2]
+    | ok c =>
+      cases h3 : mulCeil sm r with
+      | error => right; simp [h3]
+      | ok sf => left; exact ⟨r, c, sf, rfl, rfl, h2, h3⟩
+
 /-- **hostile_multiplicator_is_error_not_panic.** The values that used to panic (negative,
 omitted, astronomically large) all end in `.error`. -/
 theorem hostile_multiplicator_is_error_not_panic (v : Nat) (hv : 0 < v) :
